@@ -29,3 +29,36 @@ Contract(
     props=("C15",),
     native={"gen": "gen_transform_points"},
 )
+
+# ---- _merge_regions: the merge forest (region id -> a smaller id of the same region, 0 = root).
+# Ghost labellings: `cls` is any labelling that is constant along the links and joins lower/upper - the result's links stay
+# inside its classes (nothing else is merged); `dd` is any labelling at all - if it is constant along the *result's* links then
+# it was constant along the old links and joins lower/upper (everything that was connected stays connected, and the two
+# regions are now connected).
+_FOREST = lambda A, n: "all(%s[i] == 0 or (1 <= %s[i] and %s[i] < i) for i in range(0, %s))" % (A, A, A, n)
+_CONS = lambda lab, A, n: "all(%s[i] == 0 or %s[i] == %s[%s[i]] for i in range(0, %s))" % (A, lab, lab, A, n)
+Contract(
+    M, "_merge_regions", {"region_lookup": "i1", "lower_region": "int", "upper_region": "int"},
+    ghost_params={"cls": "i1", "dd": "i1"},
+    lets=[("L0", "region_lookup.shape[0]")],
+    requires=["L0 >= 1", "1 <= lower_region and lower_region < upper_region",
+              _FOREST("region_lookup", "L0"), _CONS("cls", "region_lookup", "L0"), "cls[lower_region] == cls[upper_region]"],
+    result="i1", modifies=("region_lookup",),
+    ensures=[
+        "result.shape[0] > upper_region and result.shape[0] >= L0",
+        _FOREST("result", "result.shape[0]"),
+        _CONS("cls", "result", "result.shape[0]"),
+        "(not %s) or (%s and dd[lower_region] == dd[upper_region])" % (
+            _CONS("dd", "result", "result.shape[0]"), _CONS("dd", "old(region_lookup)", "L0").replace("old(region_lookup)[i]", "old(region_lookup[i])")),
+    ],
+    loops={0: LoopSpec("while", inv=[
+        "region_lookup.shape[0] > upper_region and region_lookup.shape[0] >= L0",
+        "1 <= lower_region and lower_region < upper_region",
+        _FOREST("region_lookup", "region_lookup.shape[0]"),
+        _CONS("cls", "region_lookup", "region_lookup.shape[0]"), "cls[lower_region] == cls[upper_region]",
+        "(not (%s and dd[lower_region] == dd[upper_region])) or (%s and dd[old(lower_region)] == dd[old(upper_region)])" % (
+            _CONS("dd", "region_lookup", "region_lookup.shape[0]"),
+            "all(old(region_lookup[i]) == 0 or dd[i] == dd[old(region_lookup[i])] for i in range(0, L0))"),
+    ], decreases="upper_region")},
+    props=("C15",), native={"skip": True},
+)
